@@ -101,6 +101,8 @@ func (w *c18world) setup(history string) {
 		must(w.sys.AddFact(ctx, l, "a b&c=d", `{"k":"a b&c=d%41+","n":{"m":true}}`))
 		must(w.sys.AddFact(ctx, l, `q"uote`, `{"ü":"\"q\"","k":["1",2]}`))
 		must(w.sys.AddRule(ctx, l, "r1", `{"when":{"pattern":{"e":"?e"}},"action":{"code":"'fired '+e"}}`))
+		// an id with characters JSON must escape as \u00XX (Go's %q would not)
+		must(w.sys.AddRule(ctx, l, "c\x01tl", `{"when":{"pattern":{"e":"ctl"}},"action":{"code":"'ctl'"}}`))
 		must(w.sys.AddRule(ctx, l, "r 2&", `{"when":{"pattern":{"e":"a b&c"}},"condition":{"pattern":{"k":"?k"}},"action":{"code":"'r2'"}}`))
 	}
 }
@@ -430,7 +432,7 @@ func c18Requests(tier string) []c18req {
 			}
 			out = append(out, c18req{Op: "facts/get", Params: P("location", l, "id", id)}, c18req{Op: "facts/rem", Params: P("location", l, "id", id)})
 		}
-		for _, id := range []string{"r1", "r 2&", "nope", "f1"} {
+		for _, id := range []string{"r1", "r 2&", "nope", "f1", "c\x01tl"} {
 			for _, op := range []string{"rules/rem", "rules/disable", "rules/enable", "rules/enabled"} {
 				out = append(out, c18req{Op: op, Params: P("location", l, "id", id)})
 			}
